@@ -67,6 +67,14 @@ def apply_history(history):
                 MazeDataset.generate(L.make_cfg(op["spec"]))
             elif k == "from_config":
                 MazeDataset.from_config(L.make_cfg(op["spec"]), load_local=False, save_local=False, do_download=False)
+            elif k == "generator_call":
+                L.run_generator(op["call"])
+            elif k == "random_path":
+                m = L.run_generator(op["call"])
+                m.generate_random_path(**op.get("ep", {}))
+            elif k == "filter_other":
+                ds = MazeDataset.generate(L.make_cfg(op["spec"]))
+                ds.filter_by.remove_duplicates_fast().filter_by.collect_generation_meta().serialize()
             elif k == "tokenize":
                 from maze_dataset.tokenization import MazeTokenizer, MazeTokenizerModular, TokenizationMode
 
@@ -145,14 +153,20 @@ def _target(filters: bool):
 def _history(draw, maxlen):
     ops = []
     for _ in range(draw(st.integers(0, maxlen))):
-        k = draw(st.sampled_from(["py_random", "py_seed", "np_random", "np_seed", "torch_seed", "torch_rand", "make_cfg", "generate", "from_config", "tokenize", "same"]))
+        k = draw(st.sampled_from(["py_random", "py_seed", "np_random", "np_seed", "torch_seed", "torch_rand", "make_cfg", "generate", "generate", "from_config", "tokenize", "same",
+                                  "generator_call", "random_path", "filter_other"]))
         op = {"op": k}
         if k in ("py_random", "np_random"):
             op["n"] = draw(st.integers(1, 7))
         elif k in ("py_seed", "np_seed", "torch_seed"):
             op["s"] = draw(st.integers(0, 2**31 - 1))
-        elif k in ("make_cfg", "generate", "from_config"):
-            op["spec"] = draw(G.dataset_spec(n_lo=2, n_hi=4, mazes_lo=1, mazes_hi=4, with_endpoint=False, with_filters=False))
+        elif k in ("make_cfg", "generate", "from_config", "filter_other"):
+            # other datasets come with their own endpoint options / recorded filters (and may fail to generate: state left by a failure counts too)
+            op["spec"] = draw(G.dataset_spec(n_lo=2, n_hi=4, mazes_lo=1, mazes_hi=4, with_endpoint=k != "filter_other", with_filters=k == "from_config", satisfiable_bias=draw(st.booleans())))
+        elif k in ("generator_call", "random_path"):
+            op["call"] = draw(G.generator_call(lo=2, hi=5, square=True))
+            if k == "random_path" and draw(st.booleans()):
+                op["ep"] = {"deadend_start": draw(st.booleans()), "deadend_end": draw(st.booleans()), "endpoints_not_equal": draw(st.booleans())}
         elif k == "tokenize":
             op["legacy"] = draw(st.booleans())
             op["s"] = draw(st.integers(0, 100))
